@@ -538,6 +538,7 @@ class UserActions(object):
   def doBulkUpdateRecord(self, table_id, row_ids, columns):
     # Replace negative ids that may refer to rows just added to this table in this bundle.
     row_ids = self._engine.out_actions.summary.translate_new_row_ids(table_id, row_ids)
+    requested_row_ids = row_ids
 
     # Convert passed-in values to the column's correct types (or alttext, or errors) and trim any
     # unchanged values.
@@ -596,8 +597,17 @@ class UserActions(object):
     # Finally, update the record
     self._do_doc_action(action)
 
-    # Invalidate trigger-formula columns affected by this update.
     table = self._engine.tables[table_id]
+
+    # An explicit value for a trigger-formula column that equals the current one got trimmed, so
+    # the doc action didn't protect it from recalculation (as it does for values that differ).
+    # It is no less explicit: protect it too, for all the rows in the request.
+    for col_id in columns:
+      col_obj = table.get_column(col_id)
+      if col_obj.has_formula() and not col_obj.is_formula():
+        self._engine.prevent_recalc(col_obj.node, requested_row_ids, should_prevent=True)
+
+    # Invalidate trigger-formula columns affected by this update.
     if column_values:     # Only if this is a non-trivial update.
       for col_id, col_obj in table.all_columns.items():
         if col_obj.is_formula() or not col_obj.has_formula():
@@ -612,8 +622,8 @@ class UserActions(object):
         # normally prevents recalculation so that the explicit value would stay (it is also
         # important for undos). For a data-cleaning column (one that depends on itself), a manual
         # change *should* trigger recalculation, so we un-prevent it here.
-        if col_id in column_values and col_rec.recalcOnChangesToSelf:
-          self._engine.prevent_recalc(col_obj.node, row_ids, should_prevent=False)
+        if col_id in columns and col_rec.recalcOnChangesToSelf:
+          self._engine.prevent_recalc(col_obj.node, requested_row_ids, should_prevent=False)
 
 
   # Helper to perform doBulkUpdateRecord using record update value pairs. This saves
